@@ -216,11 +216,11 @@ pub fn run(ctx: &Arc<Ctx>) {
     refmodels::selftest::run(&["zuc"]).unwrap_or_else(|e| ctx.machinery_error(format!("reference self-test failed: {}", e)));
     let zmax = ctx.tier.pick(1usize, 2);
     ctx.set_rule("stateright BFS over request histories on the real generator: every composition of every total <= 12 words with every placement of up to Zmax empty requests, per key/IV in {0/0, FF/FF, official vector 3, 2 seeded}; thorough adds the 256 single-bit keys and IVs with total <= 4. Invariant in every state: concatenation of returned words = reference keystream prefix and each request returns exactly the number of words asked. Crafted key/IV pairs whose first initialisation round has LFSR feedback = 0 mod 2^31-1 (the s16=0 replacement). Every sequence of up to 3 (thorough 4) requests over sizes {0,3,15,16,17,21,31,32,33,47,64} (requests longer than the 16-cell register). Pre-searched key/IV pairs whose feedback is 0 in work mode. Long streams: 2^16 words in one request and in 2^8 equal requests. Oracle: independent ZUC (u64 arithmetic mod 2^31-1, generated S-boxes) pinned by the three official vectors.");
-    ctx.note_bound(format!("T={} Zmax={}", ctx.tier.pick(12, 14), zmax));
-    let tmax = ctx.tier.pick(12usize, 14);
+    ctx.note_bound(format!("T={} Zmax={}", ctx.tier.pick(12, 16), zmax));
+    let tmax = ctx.tier.pick(12usize, 16);
     explore_splits(ctx, key_ivs(ctx), tmax, zmax, tmax, "split_model");
     ctx.sample(json!({"History": {"key": "00".repeat(16), "iv": "00".repeat(16), "sizes": [3, 0, 1, 8]}}));
-    let single_bit_t = ctx.tier.pick(2usize, 4);
+    let single_bit_t = ctx.tier.pick(2usize, 6);
     {
         let mut kivs = Vec::new();
         for bit in 0..128 {
